@@ -77,7 +77,9 @@ func next(kind string) tapeValue {
 	mu.Lock()
 	defer mu.Unlock()
 	load()
-	for pos < len(vec.Tape) && vec.Tape[pos].Kind == "uf" {
+	// "uf" entries are looked up by argument, "env" entries belong to environment stubs (encoding/json) that run
+	// for real natively
+	for pos < len(vec.Tape) && (vec.Tape[pos].Kind == "uf" || vec.Tape[pos].Kind == "env") {
 		pos++
 	}
 	if pos >= len(vec.Tape) {
